@@ -146,6 +146,9 @@ func (e *Engine) strLen(v Value) Value {
 
 // strEq returns the equality of two string values as bool or *Term.
 func (e *Engine) strEq(a, b Value) Value {
+	if len(e.bound) > 0 {
+		a, b = e.resolve(a), e.resolve(b)
+	}
 	if sa, ok := a.(string); ok {
 		if sb, ok := b.(string); ok {
 			return sa == sb
@@ -283,4 +286,61 @@ func quoteOf(v Value, native func(string) string) Value {
 		return &Rope{Segs: []Seg{{Q: x}}}
 	}
 	panic(unsupported("Quote of non-string"))
+}
+
+// resolve substitutes variables that a representative assignment has fixed (see ropeSlice)
+// so that strings built from them become concrete again.
+func (e *Engine) resolve(v Value) Value {
+	r, ok := v.(*Rope)
+	if !ok {
+		return v
+	}
+	segs := make([]Seg, 0, len(r.Segs))
+	for _, sg := range r.Segs {
+		switch {
+		case sg.R != nil:
+			if val, ok := e.evalBound(sg.R); ok {
+				segs = append(segs, Seg{S: string(rune(int32(val)))})
+			} else {
+				segs = append(segs, sg)
+			}
+		case sg.Q != nil:
+			inner := e.resolve(sg.Q.value())
+			if s, ok := inner.(string); ok {
+				segs = append(segs, Seg{S: quoteNative(s)})
+			} else {
+				segs = append(segs, Seg{Q: inner.(*Rope)})
+			}
+		default:
+			segs = append(segs, sg)
+		}
+	}
+	return mkString(segs)
+}
+
+// evalBound evaluates t if all its variables are bound by a representative assignment.
+func (e *Engine) evalBound(t *Term) (uint64, bool) {
+	ok := true
+	var check func(t *Term)
+	seen := map[uint32]bool{}
+	check = func(t *Term) {
+		if !ok || seen[t.id] {
+			return
+		}
+		seen[t.id] = true
+		if t.Op == OpVar {
+			if _, b := e.bound[t.Name]; !b {
+				ok = false
+			}
+			return
+		}
+		for i := 0; i < int(t.N); i++ {
+			check(t.A[i])
+		}
+	}
+	check(t)
+	if !ok {
+		return 0, false
+	}
+	return Eval(t, e.bound, map[uint32]uint64{}), true
 }
